@@ -140,7 +140,7 @@ Definition kernel_run (fuelg fuel : nat) (l1 maxKB start stop : N) (sieving_prim
 
 (** the model kernel as a total function of the interval (fuel computed from the geometry): what Erat delivers to its
     clients for [start, stop] under the configuration (l1, maxKB) *)
-Definition erat_model (l1 maxKB start stop : N) : list N :=
+Definition erat_with (sieving_primes : list N) (l1 maxKB start stop : N) : list N :=
   let a := Config.initAlgorithms l1 maxKB start stop in
   let fuelg := (N.to_nat ((stop - Config.a_segLow a) / (30 * Config.a_sieveSize a)) + 2)%nat in
   match EratGeom.segments fuelg l1 maxKB start stop with
@@ -149,11 +149,24 @@ Definition erat_model (l1 maxKB start stop : N) : list N :=
       let fuel := N.to_nat (3 * fold_right N.max 0 (map EratGeom.s_bytes l) + 4) in
       match sieve_loop fuel eratSmallSteps stop
               (map (fun sg => {| k_low := EratGeom.s_low sg; k_size := EratGeom.s_bytes sg; k_high := EratGeom.s_high sg |}) l)
-              (Primes.primes_between 7 (N.sqrt stop)) [] with
+              sieving_primes [] with
       | None => []
       | Some result => filter (fun n => start <=? n) (flat_map (fun r => surviving (fst r) (snd r)) result)
       end
   end.
+
+(** with the sieving primes taken from the specification *)
+Definition erat_model (l1 maxKB start stop : N) : list N :=
+  erat_with (Primes.primes_between 7 (N.sqrt stop)) l1 maxKB start stop.
+
+(** SievingPrimes: the sieving primes are themselves produced by the kernel, for [7, sqrt(stop)], recursively
+    (2^64 -> 2^32 -> 2^16 -> 2^8 -> 16 -> no sieving primes needed: depth 5) *)
+Fixpoint erat_rec (depth : nat) (l1 maxKB start stop : N) : list N :=
+  match depth with
+  | O => erat_with [] l1 maxKB start stop
+  | S d => erat_with (if N.sqrt stop <? 7 then [] else erat_rec d l1 maxKB 7 (N.sqrt stop)) l1 maxKB start stop
+  end.
+Definition erat_self (l1 maxKB start stop : N) : list N := erat_rec 6 l1 maxKB start stop.
 
 (** the byte values of the sieve array after the cross-off: all ones AND every unset mask applied to the byte *)
 Definition byte_val (cleared : list (N * N)) (j : N) : N :=
